@@ -188,7 +188,7 @@ offset calc_cat_offset(int slot, Format fmt)
 
 Volume* FileSystem::mount(std::optional<char> key, std::string& error) const
 {
-  if (volumes_.size() > 1 && !key)
+  if (disc_format() == Format::OpusDDOS && !key)
     {
       // When the disc image we are working with is an Opus DDOS image
       // (but at no other time) , drive "0" is equivalent to "0A".
